@@ -45,7 +45,7 @@ func confsByName(names ...string) []*SConf {
 func runServerProp(env *Env, prop string, o enumOpts, rule string, nontrivial func(c *SCase) bool) error {
 	env.Header = hsHeader + "Corr." + prop + "."
 	if prop == "C09" {
-		env.Header = hsHeader + "Hs.ClientBuilder Corr.Interop Corr.C09."
+		env.Header = hsHeader + "Hs.ClientBuilder Hs.Builder Corr.Builder Corr.Interop Corr.C09."
 	}
 	env.ShardSize = 250
 	env.Rule = hsRule + rule + " Distinct by (configuration, callbacks, script)."
@@ -140,7 +140,7 @@ func init() {
 		defer func() { wrapCase = nil }()
 		var ro optionsCase
 		if ok, _ := env.ReplayDesc(&ro); ok && ro.Options {
-			env.Header = hsHeader + "Hs.ClientBuilder Corr.Interop Corr.C09."
+			env.Header = hsHeader + "Hs.ClientBuilder Hs.Builder Corr.Builder Corr.Interop Corr.C09."
 			seq := make([]optCall, len(ro.Calls))
 			for i, x := range ro.Calls {
 				seq[i] = optCall{Enc: x.Enc, Arg: x.Arg}
@@ -157,10 +157,21 @@ func init() {
 		}
 		var ri interopCase
 		if ok, _ := env.ReplayDesc(&ri); ok && ri.Interop {
-			env.Header = hsHeader + "Hs.ClientBuilder Corr.Interop Corr.C09."
-			srv := newScriptServer(ri.Conf, ri.Oracle)
+			env.Header = hsHeader + "Hs.ClientBuilder Hs.Builder Corr.Builder Corr.Interop Corr.C09."
+			var srv *scriptServer
+			if ri.Built != "" {
+				for _, spec := range builtSpecs {
+					if spec.name == ri.Built {
+						srv = newBuiltServer(spec, true)
+					}
+				}
+			}
+			if srv == nil {
+				srv = newScriptServer(ri.Conf, ri.Oracle)
+			}
 			defer srv.Close()
-			c := srv.runInterop(ri.CConf)
+			c := srv.runInterop(ri.CConf, ri.Ident)
+			c.Built = ri.Built
 			env.Add(c.coq(), c)
 			return nil
 		}
@@ -176,7 +187,7 @@ func init() {
 		}
 		var rp pipelinedCase
 		if ok, _ := env.ReplayDesc(&rp); ok && rp.Pipelined {
-			env.Header = hsHeader + "Hs.ClientBuilder Corr.Interop Corr.C09."
+			env.Header = hsHeader + "Hs.ClientBuilder Hs.Builder Corr.Builder Corr.Interop Corr.C09."
 			for _, sc := range pipeScenarios {
 				if sc.name == rp.Name {
 					c := runPipelined(sc)
